@@ -59,6 +59,13 @@ def monitor_strategy(ctx, name, hf, key, shipped):
     if shipped:
         for v in full:
             ctx.check(isinstance(v, int) and 0 <= v <= refimpl.M64, f"{name} returned a value outside 0..2^64-1", key=key, value=v)
+    # deep requests (a Bloom filter at rate 1e-30 asks for ~100 hashes): still exactly `depth` values, and the shallow answers are their prefix
+    for deep in (17, 33, 100):
+        dv = hf(key, deep)
+        ctx.check(len(dv) == deep and dv[:8] == full, f"{name}(key, {deep}) has the wrong length or is not an extension of {name}(key, 8)", key=key, got_len=len(dv))
+        if name == "default_fnv_1a" and isinstance(key, (bytes, bytearray)):
+            ctx.check(dv == refimpl.fnv_chain(bytes(key), deep), f"default_fnv_1a(key, {deep}) differs from reference FNV-1a with the basis advanced by 31 per index", key=key,
+                      first_bad=[i for i, (a, b) in enumerate(zip(dv, refimpl.fnv_chain(bytes(key), deep))) if a != b][:3])
     ctx.count(f"strategy_monitored.{name}")
 
 
